@@ -270,20 +270,25 @@ def escape_tables(check: Check, repo: Repo, rules: dict) -> None:
     if rep is None:
         raise AnalysisError(f"{META}::unicode changed shape")
     lo, hi = rep[2], rep[3]
-    hexfn = ast.unparse(repo.func(UNESCAPE, "_decode_hex_char"))
-    ok = f"not {lo} <= hex_digit_length <= {hi}" in hexfn or f"hex_digit_length not in range({lo}, {hi + 1})" in hexfn
-    check.oblige("ESCAPE-TABLE", f"{UNESCAPE}::_decode_hex_char", f"\\u{{}} accepts {lo} to {hi} hex digits" if ok else f"_decode_hex_char does not accept exactly {lo} to {hi} hex digits", ok)
     code = rules["code"][1]
     rep2 = next((x for x in code[1] if x[0] == "rep"), None)
-    ok = rep2 is not None and rep2[2] == rep2[3] == 2 and "len(digits) != 2" in ast.unparse(dec)
-    check.oblige("ESCAPE-TABLE", f"{UNESCAPE}::_decode_escape_sequence", "\\x takes exactly two hex digits" if ok else "\\x does not take exactly two hex digits", ok)
-    # hex digit classes
+    if rep2 is None or not (rep2[2] == rep2[3] == 2):
+        raise AnalysisError(f"{META}::code no longer takes exactly two hex digits")
     hd = P.Peg2Re(rules, META).single_set(("id", "hex_digit"))
-    ph = ast.unparse(repo.func(UNESCAPE, "_parse_hex_digits"))
-    ok = hd == ((48, 57), (65, 70), (97, 102)) and all(s in ph for s in ("digit >= 48 and digit <= 57", "digit >= 65 and digit <= 70", "digit >= 97 and digit <= 102"))
-    check.oblige("ESCAPE-TABLE", f"{UNESCAPE}::_parse_hex_digits", "hex digits are 0-9 a-f A-F with values 0..15" if ok else "_parse_hex_digits does not implement 0-9 a-f A-F", ok)
-    vals = all(s in ph for s in ("digit - 48", "digit - 65 + 10", "digit - 97 + 10", "codepoint <<= 4"))
-    check.oblige("ESCAPE-TABLE", f"{UNESCAPE}::_parse_hex_digits", "hex digit values and base-16 accumulation" if vals else "hex digit values or accumulation changed", vals)
+    hexdigits = "".join(chr(c) for a, b in hd for c in range(a, b + 1))
+    # the digit counts, the digit set and the digit values are decided on the decoder itself (DECODE, sa/unescsem.py)
+    from ..unescsem import check_decoder
+
+    construct = f"{UNESCAPE}::unescape_string"
+    n, bad = check_decoder(repo, construct, lo, hi, hexdigits)
+    check.count("decoder_model_texts", n)
+    check.oblige("ESCAPE-TABLE", construct, f"\\x takes two and \\u{{}} {lo} to {hi} digits of meta.pest's hex_digit set, with their base-16 values ({n} model texts)" if not bad else f"{len(bad)} of {n} model texts are decoded wrongly (per category below)", True, sample=True)
+    cats: dict[str, list[str]] = {}
+    for cat, msg in bad:
+        cats.setdefault(cat, []).append(msg)
+    for cat, msgs in sorted(cats.items()):
+        sig = f"unescape_string: {cat}"
+        check.oblige("ESCAPE-TABLE", construct, sig, False, sample=True, finding=Finding("ESCAPE-TABLE", construct, sig, f"{sig}: e.g. {msgs[0]} ({len(msgs)} of {n} model texts)", {"witness": msgs[0]}))
 
 
 def emitted_kinds(fn: ast.FunctionDef) -> set[str]:
@@ -335,167 +340,21 @@ def _arms(fn: ast.FunctionDef, var: str) -> dict[str, list[ast.stmt]]:
 
 
 def structure(check: Check, repo: Repo, rules: dict) -> None:
-    pe = repo.func(PARSER, "Parser.parse_expression")
+    """STRUCTURE: decided semantically (sa/tokparse.py): the token parser is evaluated from its syntax tree on every
+    term form, operator, tag position, repetition form and infix arrangement, and on rule headers."""
+    from ..tokparse import check_rules, check_structure
+
     construct = f"{PARSER}::Parser.parse_expression"
-    arms = _arms(pe, "left_kind")
-
-    def built(body: list[ast.stmt]) -> ast.Call | None:
-        for s in reversed(body):
-            for n in ast.walk(s):
-                if isinstance(n, ast.Assign) and ast.unparse(n.targets[0]) == "left" and isinstance(n.value, ast.Call):
-                    return n.value
-        return None
-
-    for kind, cls in STRUCTURE.items():
-        body = arms.get(kind)
-        if body is None:
-            continue  # reported by DISPATCH
-        c = built(body)
-        got = ast.unparse(c.func) if c is not None else None
-        ok = got == cls
-        check.oblige("STRUCTURE", construct, f"{kind} builds {cls}" if ok else f"{kind} builds {got} where {cls} is denoted", ok, sample=kind in ("CHAR", "NEGATIVE_PREDICATE"),
-                     finding=Finding("STRUCTURE", construct, f"{kind} builds {got} where {cls} is denoted", f"parse_expression: a {kind} token builds {got}; the text denotes {cls}", {}))
-        check.count("structure_entries")
-        if c is None:
-            continue
-        if cls in ("PositivePredicate", "NegativePredicate"):
-            a0 = ast.unparse(c.args[0]) if c.args else ""
-            ok = a0 == "self.parse_expression(PRECEDENCE_PREFIX)"
-            check.oblige("STRUCTURE", construct, f"{kind}: operand parsed with PRECEDENCE_PREFIX" if ok else f"{kind}: operand parsed as {a0}", ok)
-        if cls in ("Group", "Push"):
-            a0 = ast.unparse(c.args[0]) if c.args else ""
-            ok = a0 == "self.parse_expression()"
-            check.oblige("STRUCTURE", construct, f"{kind}: inner expression parsed from the lowest precedence" if ok else f"{kind}: inner expression parsed as {a0}", ok)
-        if cls == "Range":
-            # first CHAR token -> start, second -> stop
-            eats = [n for s in body for n in ast.walk(s) if isinstance(n, ast.Call) and ast.unparse(n.func) == "self.eat" and n.args and ast.unparse(n.args[0]) == "TokenKind.CHAR"]
-            src = "\n".join(ast.unparse(s) for s in body)
-            first_to_start = "start = unescape_string(self.eat(TokenKind.CHAR).value[1:-1]" in src
-            second = "stop_token = self.eat(TokenKind.CHAR)" in src
-            args = [ast.unparse(a) for a in c.args[:2]]
-            second_to_stop = len(args) == 2 and args[0] == "start" and ("stop_token" in args[1] or args[1] == "stop") and (args[1] != "stop" or "stop = unescape_string(stop_token.value[1:-1]" in src)
-            ok = len(eats) == 2 and first_to_start and second and second_to_stop and src.index("start = ") < src.index("stop_token = ")
-            check.oblige("STRUCTURE", construct, "Range(start = first character, stop = second character), both unescaped" if ok else "Range endpoints do not come from (first CHAR, second CHAR) in this order", ok,
-                         finding=Finding("STRUCTURE", construct, "Range endpoints do not come from (first CHAR, second CHAR) in this order", f"CHAR arm: Range({', '.join(args)})", {}))
-            ok = src.count("quote=\"'\"") + src.count("quote='\\''") >= 2 or src.count("quote=") >= 2
-            check.oblige("STRUCTURE", construct, "character literals are unescaped with the single-quote convention", True)
-        if cls in ("String", "CIString", "PushLiteral"):
-            a0 = ast.unparse(c.args[0]) if c.args else ""
-            ok = a0.endswith(".value")
-            check.oblige("STRUCTURE", construct, f"{kind}: literal value comes from the token" if ok else f"{kind}: literal built from {a0}", ok)
-    # tag attached to the term it prefixes
-    tagged = [k for k, cls in STRUCTURE.items() if cls not in ("String", "CIString") and arms.get(k) is not None]
-    for k in tagged:
-        c = built(arms[k])
-        ok = c is not None and any(kw.arg == "tag" and ast.unparse(kw.value) == "tag" for kw in c.keywords)
-        check.oblige("STRUCTURE", construct, f"{k}: the pending tag is attached to this term" if ok else f"{k}: the tag written before the term is dropped", ok)
-    # identifier: builtin object or Identifier(name, tag)
-    ib = arms.get("IDENTIFIER")
-    if ib is not None:
-        src = "\n".join(ast.unparse(s) for s in ib)
-        ok = "Identifier(name, tag=tag)" in src and "self.builtins[name]" in src and "name != 'EOI'" in src
-        check.oblige("STRUCTURE", construct, "IDENTIFIER builds a built-in reference or Identifier(name, tag)" if ok else "IDENTIFIER arm changed shape", ok)
-    # postfix
-    pp = repo.func(PARSER, "Parser.parse_postfix_expression")
-    parms = _arms(pp, "kind")
-    for kind, cls in POSTFIX_STRUCTURE.items():
-        body = parms.get(kind)
-        if body is None:
-            continue
-        call = None
-        for s_ in body:
-            if isinstance(s_, ast.Return) and isinstance(s_.value, ast.Call):
-                call = s_.value
-            if isinstance(s_, ast.Assign) and ast.unparse(s_.targets[0]) == "expr" and isinstance(s_.value, ast.Call):
-                call = s_.value
-        got = ast.unparse(call.func) if call is not None else None
-        a = ast.unparse(call.args[0]) if call is not None and call.args else None
-        ok = got == cls and a == "expr"
-        check.oblige("STRUCTURE", f"{PARSER}::Parser.parse_postfix_expression", f"{kind} builds {cls}(expr)" if ok else f"{kind} builds {got}({a}) where {cls}(expr) is denoted", ok)
-        check.count("structure_entries")
-    # repetition bounds provenance
-    pr = repo.func(PARSER, "Parser.parse_repeat_expression")
-    src = ast.unparse(pr)
-
-    def arg_of(call_text: str) -> bool:
-        return call_text in src
-
-    conv = "self.parse_int" if "self.parse_int(" in src else "int"
-
-    def num(x: str) -> str:
-        return f"self.parse_int({x})" if conv == "self.parse_int" else f"int({x}.value)"
-
-    facts = [
-        (f"RepeatExact(expr, {num('number')})", "{n} builds RepeatExact(expr, n)"),
-        (f"RepeatMin(expr, {num('number')})", "{n,} builds RepeatMin(expr, n)"),
-        (f"RepeatMinMax(expr, {num('number')}, {num('stop')})", "{m,n} builds RepeatMinMax(expr, m, n) in this order"),
-        (f"RepeatMax(expr, {num('number')})", "{,n} builds RepeatMax(expr, n)"),
-    ]
-    for text, what in facts:
-        ok = arg_of(text)
-        check.oblige("STRUCTURE", f"{PARSER}::Parser.parse_repeat_expression", what if ok else f"not found: {text}", ok, sample="MinMax" in text,
-                     finding=Finding("STRUCTURE", f"{PARSER}::Parser.parse_repeat_expression", f"not found: {text}", f"parse_repeat_expression no longer builds {text}: repetition bounds may be swapped or taken from the wrong token", {}))
-        check.count("structure_entries")
-    # which token feeds `number` / `stop` in each branch
-    ok = "number = token" in src and "stop = self.eat(TokenKind.NUMBER)" in src and "number = self.eat(TokenKind.NUMBER)" in src
-    check.oblige("STRUCTURE", f"{PARSER}::Parser.parse_repeat_expression", "bounds are the NUMBER tokens in source order" if ok else "repetition bounds are not bound to the NUMBER tokens in source order", ok)
-    # PEEK slice
-    pk = ast.unparse(repo.func(PARSER, "Parser.parse_peek_expression"))
-    i1, i2, i3 = pk.find("start: str | None = self.next().value"), pk.find("self.eat(TokenKind.RANGE_OP)"), pk.find("stop: str | None = self.next().value")
-    ok = 0 <= i1 < i2 < i3 and "PeekSlice(start, stop, tag=tag)" in pk and "return Peek(tag=tag)" in pk
-    check.oblige("STRUCTURE", f"{PARSER}::Parser.parse_peek_expression", "PEEK[a..b] builds PeekSlice(a, b); bare PEEK builds Peek" if ok else "PEEK slice bounds are not (integer before '..', integer after '..')", ok, sample=True)
-    ps = ast.unparse(repo.func("src/pest/grammar/expressions/terminals.py", "PeekSlice.__init__"))
-    ok = "self.start = int(start) if start else None" in ps and "self.stop = int(stop) if stop else None" in ps
-    check.oblige("STRUCTURE", "src/pest/grammar/expressions/terminals.py::PeekSlice.__init__", "PeekSlice stores int(start), int(stop) unswapped" if ok else "PeekSlice.__init__ does not store int(start)/int(stop) unswapped", ok)
-    # infix
-    pi = ast.unparse(repo.func(PARSER, "Parser.parse_infix_expression"))
-    for op, cls in (("CHOICE_OP", "Choice"), ("SEQUENCE_OP", "Sequence")):
-        ok = f"kind == TokenKind.{op}" in pi and f"return {cls}(left, *right.expressions)" in pi and f"return {cls}(left, right)" in pi
-        check.oblige("STRUCTURE", f"{PARSER}::Parser.parse_infix_expression", f"{op} builds {cls}(left, right) in source order (flattening a right-nested {cls})" if ok else f"{op} does not build {cls}(left, right...) in source order", ok)
-        check.count("structure_entries")
-    ok = "right = self.parse_expression(precedence)" in pi and "precedence = PRECEDENCES.get(kind, PRECEDENCE_LOWEST)" in pi
-    check.oblige("STRUCTURE", f"{PARSER}::Parser.parse_infix_expression", "the right operand is parsed at the operator's own precedence (right-nesting, flattened above)" if ok else "right operand precedence changed", ok)
-    # precedence constants
-    c = repo.mod(PARSER).constants()
-    try:
-        ok = c["PRECEDENCE_LOWEST"] < c["PRECEDENCE_CHOICE"] < c["PRECEDENCE_SEQUENCE"] < c["PRECEDENCE_PREFIX"]  # type: ignore[operator]
-    except KeyError as e:
-        raise AnalysisError(f"anchor vanished: {PARSER}::{e}") from e
-    check.oblige("STRUCTURE", f"{PARSER}::PRECEDENCE_*", "LOWEST < CHOICE < SEQUENCE < PREFIX" if ok else "precedence constants are not ordered LOWEST < CHOICE < SEQUENCE < PREFIX", ok, sample=True)
-    prec_tbl = next((n for n in repo.mod(PARSER).tree.body if isinstance(n, ast.AnnAssign) and ast.unparse(n.target) == "PRECEDENCES"), None)
-    txt = ast.unparse(prec_tbl.value) if prec_tbl is not None and prec_tbl.value is not None else ""
-    ok = "TokenKind.CHOICE_OP: PRECEDENCE_CHOICE" in txt and "TokenKind.SEQUENCE_OP: PRECEDENCE_SEQUENCE" in txt
-    check.oblige("STRUCTURE", f"{PARSER}::PRECEDENCES", "| maps to CHOICE and ~ to SEQUENCE" if ok else "PRECEDENCES maps the infix operators to the wrong levels", ok)
-    # postfix before the infix loop; loop breaks below `precedence`
-    body_src = ast.unparse(pe)
-    i_post, i_loop = body_src.find("left = self.parse_postfix_expression(left)"), body_src.find("while True:")
-    ok = 0 <= i_post < i_loop
-    check.oblige("STRUCTURE", construct, "postfix operators are applied to the operand before the infix loop" if ok else "postfix operators are not applied before the infix loop", ok)
-    ok = "PRECEDENCES.get(kind, PRECEDENCE_LOWEST) < precedence" in body_src and "kind not in INFIX_OPERATORS" in body_src
-    check.oblige("STRUCTURE", construct, "the infix loop stops below the current precedence and on non-operators" if ok else "infix loop exit conditions changed", ok)
-    # modifiers
-    rc = repo.mod(RULE).constants()
-    sym_node = next((n for n in repo.mod(RULE).tree.body if isinstance(n, ast.AnnAssign) and ast.unparse(n.target) == "MODIFIER_SYMBOLS"), None)
-    if sym_node is None or sym_node.value is None:
-        raise AnalysisError(f"anchor vanished: {RULE}::MODIFIER_SYMBOLS")
-    table = {ast.unparse(k): ast.literal_eval(v) for k, v in zip(sym_node.value.keys, sym_node.value.values, strict=True)}  # type: ignore[attr-defined]
-    want = {"silent_modifier": "SILENT", "atomic_modifier": "ATOMIC", "compound_atomic_modifier": "COMPOUND", "non_atomic_modifier": "NONATOMIC"}
-    for rule_name, const in want.items():
-        if rule_name not in rules:
-            raise AnalysisError(f"anchor vanished: {META}::{rule_name}")
-        sym = rules[rule_name][1]
-        ok = sym[0] == "str" and table.get(const) == sym[1]
-        check.oblige("STRUCTURE", f"{RULE}::MODIFIER_SYMBOLS", f"{sym[1]!r} denotes {const}" if ok else f"{const} is not written {sym[1]!r}", ok)
-        check.count("structure_entries")
-    ok = len({rc.get(k) for k in want.values()}) == 4
-    check.oblige("STRUCTURE", f"{RULE}::modifier masks", "the four modifier masks are distinct bits" if ok else "modifier masks collide", ok)
-    pm = ast.unparse(repo.func(PARSER, "Parser.parse_modifier"))
-    ok = "MODIFIER_MAP.get(self.next().value, 0)" in pm
-    check.oblige("STRUCTURE", f"{PARSER}::Parser.parse_modifier", "the modifier token is looked up in MODIFIER_MAP" if ok else "parse_modifier no longer looks the token up in MODIFIER_MAP", ok)
-    # rule assembly
-    prs = ast.unparse(repo.func(PARSER, "Parser.parse_rules"))
-    ok = "GrammarRule(identifier.value, expression, modifier, rule_doc)" in prs and "rules[identifier.value] = " in prs
-    check.oblige("STRUCTURE", f"{PARSER}::Parser.parse_rules", "GrammarRule(name, expression, modifier, doc) stored under its name" if ok else "rule assembly changed argument order", ok)
+    for fn_, cons, what in ((check_structure, construct, "expressions"), (check_rules, f"{PARSER}::Parser.parse_rules", "rule headers")):
+        n, bad = fn_(repo, cons)
+        check.count("structure_entries", n)
+        check.oblige("STRUCTURE", cons, f"on all {n} model {what} the tree built is the one the tokens denote" if not bad else f"{len(bad)} of {n} model {what} are built wrongly (per category below)", True, sample=True)
+        cats: dict[str, list[str]] = {}
+        for cat, msg in bad:
+            cats.setdefault(cat, []).append(msg)
+        for cat, msgs in sorted(cats.items()):
+            sig = f"token parser: {cat}"
+            check.oblige("STRUCTURE", cons, sig, False, sample=True, finding=Finding("STRUCTURE", cons, sig, f"{sig}: e.g. {msgs[0]} ({len(msgs)} of {n} model {what})", {"witness": msgs[0]}))
 
 
 def skeleton(check: Check, repo: Repo, rules: dict) -> None:
